@@ -44,7 +44,8 @@ def rnd_probe(r, L, ps):
 
 def rnd_L(r):
     t = r.below(6)
-    if t == 0: return r.choice([0, 1, 2, 3, 9, 10, 11, 17, 18, 25, 26, 33, 34, 41, 42, 49, 50, 56, 57])
+    if t == 0: return r.choice([0, 1, 2, 3, 9, 10, 11, 17, 18, 25, 26, 33, 34, 41, 42, 49, 50, 56, 57, 58, 59, 62, 63])
+    if t == 1: return r.range(0, 63)
     return r.range(0, 57)
 
 def rnd_newL(r, L):
@@ -77,7 +78,7 @@ def gen_cases(ctx, scale):
             bidx = ((h & ((1 << L) - 1)) + tri(probe)) & ((1 << L) - 1)
             sh[idx] = h >> 57; hp[idx] = o2_pack(h, L, probe)
             exp = None
-            if newL > L and newL <= 57:
+            if newL > L:
                 exp = full if (hp[idx] == 255 or qof(L) != qof(newL)) else known(qof(L), h)
             out.append((0, 'o2get %s %s %d %d %d %d %d' % (' '.join(map(str, sh)), ' '.join(map(str, hp)), full, bidx, L, newL, idx), exp))
         else:
@@ -101,9 +102,7 @@ def gen_cases(ctx, scale):
             if r.chance(2, 3) and H - 1 - idx > idx:
                 bidx = ((h & ((1 << L) - 1)) + probe) & ((1 << L) - 1)
                 s[idx] = h >> 57; s[H - 1 - idx] = p4_pack(h, L, probe)
-                exp = None
-                if newL <= 57:
-                    exp = full if (s[H - 1 - idx] == 255 or qof(L) != qof(newL)) else known(qof(L), h)
+                exp = full if (s[H - 1 - idx] == 255 or qof(L) != qof(newL)) else known(qof(L), h)
                 out.append((H, 'p4get %d %s %d %d %d %d %d' % (H, ' '.join(map(str, s)), full, bidx, L, newL, idx), exp))
             else:
                 out.append((H, 'p4get %d %s %d %d %d %d %d' % (H, ' '.join(map(str, s)), full, r.below(1 << L), L, newL, idx), None))
@@ -199,7 +198,7 @@ def check_outputs(ctx, triples, lines):
                     except (ValueError, IndexError):
                         bad.append((c, out, 'unparsable p4seq output')); break
                     oi += 1
-                    if newL <= 57 and v != h and (v != known(qof(L), h) or qof(L) != qof(newL)):
+                    if v != h and (v != known(qof(L), h) or qof(L) != qof(newL)):
                         bad.append((c, out, 'LimP4 bucket history: reconstructed %d is neither the hash %d nor its known bits (L=%d newL=%d)' % (v, h, L, newL))); break
                     if v != h: ctx.nontrivial.add(c)
                 else: break
@@ -261,7 +260,7 @@ def run(ctx):
                     'g++ 12 -std=c++17, harness reaches private members via #define private public',
                     'P4_Model.p4_add: hand composition of generated pvGetCount/pvSetHashProbe/pvCalcShortHash standing for the '
                     'metadata effect of BucketLimP4::AddCrt (validated against the real AddCrt on real pool memory: p4seq cases)']
-    ctx.assumptions += ['size_t is 64 bit; logBucketCount <= 57 (short-hash bits 57..63 never overlap the index bits)',
+    ctx.assumptions += ['size_t is 64 bit; logBucketCount <= 63 (for 58..63 the stored bits are the whole hash; such tables cannot be allocated, see NOTES.md)',
                         'growth is strict (newLogBucketCount > logBucketCount), as in HashSet::Reserve/pvAddGrow',
                         'probe < bucket count (HashSet::pvAddNogrow throws otherwise); LimP4 hashCount in {4,6,8} (run: 4 and 6)',
                         'L1 hash-table statements (Find after growth for the whole container) are observed by the oracle and carried by the C01 model']
@@ -317,7 +316,7 @@ def run(ctx):
                                           ('o2add', 'o2rem', 'o2get', 'p4set', 'p4rem', 'p4get', 'p4seq', 'tbl', 'one', 'start', 'next', 'short', 'set')}
     return ctx.finish(rule=RULE)
 
-RULE = ('cases = random + boundary (h: 0,1,2^k-1,2^k,2^k+1, bytes of ones/zeros at every position, all-ones; L: 0..57 aimed at the '
+RULE = ('cases = random + boundary (h: 0,1,2^k-1,2^k,2^k+1, bytes of ones/zeros at every position, all-ones; L: 0..63 aimed at the '
         'class boundaries L mod 8 in {1,2}; newL: same class / last of class / first of next class / +8; probe: 0,1,2^ps-1,2^ps,2^ps+1,random) '
         'for every translated function, LimP4 with hashCount 4 and 6, real-bucket add/remove/reconstruct histories, and HashSet growth '
         'scripts (LimP4, Open2N2, Open8, One x 8 hash bit patterns x Reserve across the class boundaries at 2^2, 2^10, 2^18 buckets). '
